@@ -37,7 +37,19 @@ structure SegSt where
   cont : List (Nat × B)
   deriving Repr
 
-abbrev Segs := List SegSt
+/-- The client's segments, by index (`n` of them). -/
+structure Segs where
+  n : Nat
+  get : Nat → SegSt
+
+def Segs.at? (s : Segs) (k : Nat) : Option SegSt := if k < s.n then some (s.get k) else none
+
+def Segs.empty : Segs := { n := 0, get := fun _ => { seg := Vgi.Shm.create 0, cont := [] } }
+
+def Segs.push (s : Segs) (x : SegSt) : Segs :=
+  { n := s.n + 1, get := fun i => if i = s.n then x else s.get i }
+
+def Segs.toList (s : Segs) : List SegSt := (List.range s.n).map s.get
 
 def SegSt.create (dataSize : Nat) : SegSt := { seg := Vgi.Shm.create dataSize, cont := [] }
 
@@ -67,7 +79,7 @@ def segRead (s : SegSt) (off len : Nat) : Option B :=
   | none => none
 
 def updateAt (segs : Segs) (k : Nat) (f : SegSt → SegSt) : Segs :=
-  segs.mapIdx fun i s => if i = k then f s else s
+  { segs with get := fun i => if i = k then f (segs.get i) else segs.get i }
 
 /-- What travels on the pipe in place of a batch. -/
 inductive Wire
@@ -118,45 +130,60 @@ def ioError : String := "IOError"
 def resolveWire (segs : Segs) (k : Nat) : Wire → Option (B × Nat)
   | .ptr k' off len =>
     if k' = k then
-      match segs[k]? with
+      match segs.at? k with
       | some s => (segRead s off len).map fun b => (b, off)
       | none => none
     else none
   | _ => none
 
-/-- The shared-memory prologue of `serveOne`: attach/reuse, resolve a request pointer and free its
-slot, decide `req.Shm`, refuse a pointer that is still unresolved. Result: segments, cached
-segment, and either the refusal or (resolved parameter batch, `req.Shm`). -/
-def serveShm (segs : Segs) (cached : Option Nat) (adv : Adv) (param : Wire) :
-    Segs × Option Nat × Option (Option B × Option Nat) :=
-  let (seg, cached') := ensure cached adv
-  match seg with
-  | some k =>
-    match param with
-    | .inline b => (segs, cached', some (some b, if adv.hasName then some k else none))
-    | w =>
+/-- What the server does with an incoming batch given the segment it may resolve pointers through
+(`seg` = the connection's attached segment for a request, `req.Shm` for a stream input): an inline
+batch is taken as is; a pointer is resolved and its slot freed (`ResolveShmBatch`, `FreeOffset`);
+a pointer that cannot be resolved — no segment, or `ResolveShmBatch` fails — is refused (`none`). -/
+def serverTake (segs : Segs) (seg : Option Nat) : Wire → Segs × Option B
+  | .inline b => (segs, some b)
+  | w =>
+    match seg with
+    | some k =>
       match resolveWire segs k w with
-      | none => (segs, cached', none)                       -- "shm resolve failed"
-      | some (b, off) =>
-        (updateAt segs k (segFree · off), cached', some (some b, some k))
-  | none =>
-    match param with
-    | .inline b => (segs, cached', some (some b, none))
-    | _ => (segs, cached', none)                            -- "no segment is attached"
+      | some (b, off) => (updateAt segs k (segFree · off), some b)
+      | none => (segs, none)                                 -- "shm resolve failed"
+    | none => (segs, none)                                   -- "no segment is attached"
+
+/-- `req.Shm`: the attached segment, if this request engages shared memory — it carries the
+segment name, or is itself a pointer batch. (The client can predict it before the server answers.) -/
+def engaged (cached : Option Nat) (adv : Adv) (reqWire : Wire) : Option Nat :=
+  match (ensure cached adv).1 with
+  | some k => if adv.hasName || reqWire.isPtr then some k else none
+  | none => none
+
+/-- The shared-memory prologue of `serveOne`: attach/reuse the segment, resolve a request pointer
+and free its slot, decide `req.Shm`, refuse a pointer that cannot be resolved. Result: segments,
+cached segment, and either the refusal or (resolved parameter batch, `req.Shm`). -/
+def serveShm (segs : Segs) (cached : Option Nat) (adv : Adv) (param : Wire) :
+    Segs × Option Nat × Option (B × Option Nat) :=
+  let (seg, cached') := ensure cached adv
+  match serverTake segs seg param with
+  | (segs', none) => (segs', cached', none)
+  | (segs', some b) => (segs', cached', some (b, engaged cached adv param))
+
+/-- `AllocateAndWrite` into segment `k` and build the pointer batch; the batch itself when the
+segment does not exist or has no room. Used by the server for results (`MaybeWriteToShm`) and by
+the client for requests and inputs. -/
+def writeTo (segs : Segs) (k : Nat) (b : B) : Segs × Wire :=
+  match segs.at? k with
+  | none => (segs, .inline b)
+  | some s =>
+    match segWrite s b with
+    | some (off, s') => (updateAt segs k (fun _ => s'), .ptr k off b.len)
+    | none => (segs, .inline b)
 
 /-- `MaybeWriteToShm(batch, req.Shm)` as used for results (`rows > 0` is also the stream path's
-own guard). -/
+own guard; `big` is the size gate). -/
 def maybeWrite (segs : Segs) (shm : Option Nat) (b : B) : Segs × Wire :=
   match shm with
   | none => (segs, .inline b)
-  | some k =>
-    if b.rows = 0 ∨ b.big = false then (segs, .inline b)
-    else match segs[k]? with
-      | none => (segs, .inline b)
-      | some s =>
-        match segWrite s b with
-        | some (off, s') => (updateAt segs k (fun _ => s'), .ptr k off b.len)
-        | none => (segs, .inline b)
+  | some k => if b.rows = 0 ∨ b.big = false then (segs, .inline b) else writeTo segs k b
 
 /-! ### Client -/
 
@@ -173,19 +200,11 @@ def Via.wellBehaved : Via → Bool
   | .shm _ => true
   | _ => false
 
-def clientWriteTo (segs : Segs) (k : Nat) (b : B) : Segs × Wire :=
-  match segs[k]? with
-  | none => (segs, .inline b)
-  | some s =>
-    match segWrite s b with
-    | some (off, s') => (updateAt segs k (fun _ => s'), .ptr k off b.len)
-    | none => (segs, .inline b)
-
 /-- `attached` = the segment the server will have attached when it reads this batch. -/
 def clientSend (segs : Segs) (attached : Option Nat) (b : B) : Via → Segs × Wire
   | .inline => (segs, .inline b)
-  | .shm k => if attached = some k then clientWriteTo segs k b else (segs, .inline b)
-  | .force k => clientWriteTo segs k b
+  | .shm k => if attached = some k then writeTo segs k b else (segs, .inline b)
+  | .force k => writeTo segs k b
   | .raw => (segs, .bad)
 
 /-- The client frees one of its own slots that the server did not consume. -/
@@ -201,7 +220,7 @@ def clientRecv (segs : Segs) (held : Held) (hold : Bool) : Wire → Segs × Held
   | .inline b => (segs, held, .ok b.id false)
   | .bad => (segs, held, .err "client:bad-pointer")
   | .ptr k off len =>
-    match segs[k]? with
+    match segs.at? k with
     | none => (segs, held, .err "client:no-segment")
     | some s =>
       match segRead s off len with
@@ -239,14 +258,6 @@ structure World where
   segs : Segs
   cached : Option Nat
   held : Held
-  deriving Repr
-
-/-- `req.Shm` as the client can predict it before the server answers: the attached segment, if
-this request engages shared memory (carries the segment name, or is itself a pointer). -/
-def engaged (cached : Option Nat) (adv : Adv) (reqWire : Wire) : Option Nat :=
-  match (ensure cached adv).1 with
-  | some k => if adv.hasName || reqWire.isPtr then some k else none
-  | none => none
 
 /-- The client sends the next input, if there is one (it writes before it reads). -/
 def sendNext (shm : Option Nat) (segs : Segs) : List Turn → Segs × Option Wire
@@ -261,16 +272,7 @@ def runTurns (shm : Option Nat) (hold : Bool) :
   | segs, held, _ :: _, none => (segs, held, [])
   | segs, held, t :: rest, some wire =>
     -- server: resolve a pointer input through req.Shm; refuse it when there is none
-    let resolved : Segs × Option B :=
-      match wire with
-      | .inline b => (segs, some b)
-      | w =>
-        match shm with
-        | some k =>
-          match resolveWire segs k w with
-          | some (b, off) => (updateAt segs k (segFree · off), some b)
-          | none => (segs, Option.none)
-        | none => (segs, Option.none)
+    let resolved := serverTake segs shm wire
     match resolved with
     | (segs2, none) =>
       -- error batch ends the stream; the client takes back a slot the server never read
